@@ -236,6 +236,57 @@ fn steps_of(xs: &[Sexp]) -> Option<Vec<ReadStep>> {
     }).collect()
 }
 
+/// field-by-field decode of a struct, skipping field number `k`: (reported count, bytes the reader moved, struct of the other fields, remaining)
+fn skip_field(p: SP, input: &[u8], k: usize) -> Result<(Option<usize>, Option<usize>, String, usize), &'static str> {
+    fn sync<P: TInputProtocol>(pr: &mut P, k: usize, pos: &dyn Fn(&mut P) -> usize) -> Result<(Option<usize>, Option<usize>, String), ThriftException> {
+        pr.read_struct_begin()?;
+        let (mut fs, mut count, mut moved, mut i) = (vec![], None, None, 0usize);
+        loop {
+            let f = pr.read_field_begin()?;
+            if f.field_type == pilota::thrift::TType::Stop { break; }
+            if i == k { let before = pos(pr); count = Some(pr.skip(f.field_type)?); moved = Some(before - pos(pr)); }
+            else { fs.push((f.id.unwrap_or(0), read_val(pr, TT::of_p(f.field_type))?)); }
+            pr.read_field_end()?;
+            i += 1;
+        }
+        pr.read_struct_end()?;
+        Ok((count, moved, Val::Struct(fs).sexp()))
+    }
+    async fn asyn<P: TAsyncInputProtocol>(pr: &mut P, k: usize, pos: &AtomicUsize) -> Result<(Option<usize>, Option<usize>, String), ThriftException> {
+        pr.read_struct_begin().await?;
+        let (mut fs, mut count, mut i) = (vec![], None, 0usize);
+        loop {
+            let f = pr.read_field_begin().await?;
+            if f.field_type == pilota::thrift::TType::Stop { break; }
+            if i == k { let before = pos.load(Relaxed); pr.skip(f.field_type).await?; count = Some(pos.load(Relaxed) - before); }
+            else { fs.push((f.id.unwrap_or(0), aread_val(pr, TT::of_p(f.field_type)).await?)); }
+            pr.read_field_end().await?;
+            i += 1;
+        }
+        pr.read_struct_end().await?;
+        Ok((count, count, Val::Struct(fs).sexp()))
+    }
+    let mut b = Bytes::copy_from_slice(input);
+    let r = match p {
+        SP::Bin => { let mut pr = pilota::thrift::binary::TBinaryProtocol::new(&mut b, false); let r = sync(&mut pr, k, &|q| q.buf().len()); drop(pr); r.map(|x| (x, b.len())) }
+        SP::Le => { let mut pr = pilota::thrift::binary_le::TBinaryProtocol::new(&mut b, false); let r = sync(&mut pr, k, &|q| q.buf().len()); drop(pr); r.map(|x| (x, b.len())) }
+        SP::Cmp => { let mut pr = pilota::thrift::compact::TCompactInputProtocol::new(&mut b); let r = sync(&mut pr, k, &|q| q.buf().len()); drop(pr); r.map(|x| (x, b.len())) }
+        SP::UBin | SP::UBinF => {
+            let mut pr = unsafe { TBinaryUnsafeInputProtocol::new(&mut b) };
+            let r = sync(&mut pr, k, &|q| { let i = q.index(); q.buf().len() - i });
+            let idx = pr.index(); drop(pr);
+            r.map(|x| (x, b.len().wrapping_sub(idx)))
+        }
+        SP::ABin | SP::ACmp => {
+            let pos = Arc::new(AtomicUsize::new(0));
+            let rd = SliceRead { data: input.to_vec(), pos: pos.clone(), chunk: usize::MAX };
+            let r = if p == SP::ABin { let mut pr = TAsyncBinaryProtocol::new(rd); block_on(asyn(&mut pr, k, &pos)) } else { let mut pr = TAsyncCompactProtocol::new(rd); block_on(asyn(&mut pr, k, &pos)) };
+            match r { Some(r) => r.map(|x| (x, input.len() - pos.load(Relaxed))), None => return Err("hung") }
+        }
+    };
+    match r { Ok(((c, m, s), rem)) => Ok((c, m, s, rem)), Err(e) => Err(err_class(&e)) }
+}
+
 /// allocation bound of the C09 oracle: live bytes above the level at entry
 fn alloc_bound(input_len: usize) -> usize { 512 * input_len + (256 << 10) }
 
@@ -281,6 +332,31 @@ pub fn exec(verb: &str, items: &[Sexp], o: &mut Oracle) -> Option<String> {
                 (None, _) => format!("ok {} {} rem={} len={}", r.items[0], r.items[1], r.rem, e1.len()),
                 (Some(c), 0) => c.to_string(),
                 (Some(c), _) => format!("{} after-skip {}", c, r.items[0]),
+            }
+        }
+        "skf" => {
+            // decode a struct field by field on one reader instance, skipping field number k (0-based) and reading the others
+            let (Some(p), Some(v), Some(k)) = (a(1).and_then(SP::of), items.get(2).and_then(Val::of_sexp), a(3).and_then(|x| x.parse::<usize>().ok())) else { return Some("bad-request".into()) };
+            let Val::Struct(fields) = &v else { return Some("bad-request".into()) };
+            let e = enc_for(p, &v);
+            let r = skip_field(p, &e, k);
+            // ---- oracle (C07): the other fields come out as written (ids included), nothing is left, count = bytes moved
+            let mut want: Vec<(i16, Val)> = fields.clone();
+            if k < want.len() { want.remove(k); }
+            let want = Val::Struct(want);
+            let want = if p.compact() { want.norm_compact().sexp() } else { want.sexp() };
+            match &r {
+                Ok((count, moved, got, rem)) => {
+                    if *got != want { o.fail("C07", format!("after skipping field {} the struct read as {} expected {}", k, got, want)); }
+                    if *rem != 0 { o.fail("C07", format!("{} bytes left after the struct", rem)); }
+                    if let (Some(c), Some(m)) = (count, moved) { if c != m { o.fail("C07", format!("skip reported {} but the reader moved {} bytes", c, m)); } }
+                    if k < fields.len() && count.is_none() { o.fail("C07", "field was not skipped".into()); }
+                }
+                Err(c) => o.fail("C07", format!("decoding a well-formed struct while skipping field {} failed: {}", k, c)),
+            }
+            match r {
+                Ok((count, _, got, rem)) => format!("ok {} {} rem={}", count.map(|c| c.to_string()).unwrap_or("-".into()), got, rem),
+                Err(c) => c.to_string(),
             }
         }
         "sk" => {
@@ -440,6 +516,15 @@ pub fn gen(stream: &str, tier: &str, seed: u64, out: &mut dyn Write) -> bool {
             // fixed: every shape x every skipper, default budget
             for (i, v) in fixed_values().iter().enumerate() {
                 for p in SP::ALL { emit_skv(out, p, None, v, Some(&follow[i % follow.len()]), trails[i % 3]); }
+            }
+            // field context: decode a struct skipping one field, read its siblings (reader state after the skip)
+            let mut structs: Vec<Val> = fixed_values().into_iter().filter(|v| matches!(v, Val::Struct(fs) if !fs.is_empty())).collect();
+            structs.push(Val::Struct(vec![(1, Val::Struct(vec![(7, Val::I8(1)), (9, Val::Bool(true))])), (2, Val::Bool(true)), (3, Val::I16(5)), (4, Val::Struct(vec![])), (5, Val::Bool(false)), (30, Val::I64(1)), (31, Val::List(TT::Struct, vec![Val::Struct(vec![(3, Val::I32(1))])]))]));
+            structs.push(Val::Struct(vec![(10, Val::Map(TT::I32, TT::Struct, vec![(Val::I32(1), Val::Struct(vec![(100, Val::Bool(true))]))])), (11, Val::Bool(false)), (12, Val::Bin(vec![1, 2, 3])), (-3, Val::Uuid([9; 16])), (-2, Val::Dbl(7))]));
+            for _ in 0..n(60, 1500) { if let v @ Val::Struct(_) = gen::gen_val(&mut r, TT::Struct, 4) { structs.push(v); } }
+            for v in &structs {
+                let Val::Struct(fs) = v else { continue };
+                for k in 0..fs.len().min(n(8, 64)) { for p in SP::ALL { if p != SP::UBinF { let _ = writeln!(out, "skf {} {} {}", p.name(), v.sexp(), k); } } }
             }
             // ladders: nesting 1..80 around the documented limit, all four container kinds
             let depths: Vec<usize> = if thorough { (1..=80).collect() } else { vec![1, 2, 3, 8, 31, 62, 63, 64, 65, 66, 80] };
